@@ -167,7 +167,11 @@ def extract_reuse_info(text: str) -> ReuseInfo:
                 # Like find_spdx_tag(), strip the closing part of an ASCII art
                 # frame: the inverse of what precedes the notice on its line.
                 suffix = line[: match.start("copyright")].strip()[::-1]
-                if suffix and value.endswith(suffix):
+                if (
+                    suffix
+                    and not any(char.isalnum() for char in suffix)
+                    and value.endswith(suffix)
+                ):
                     value = value[: -len(suffix)].strip()
                 copyright_matches.add(value)
                 break
@@ -239,8 +243,14 @@ def find_spdx_tag(text: str, pattern: re.Pattern) -> Iterator[str]:
         # To ensure we parse them correctly, if the line ends with the inverse
         # of the comment prefix, we strip that suffix. See #343 for a real
         # world example of a project doing this (LLVM).
+        # A frame is drawn with punctuation; a comment marker made of letters
+        # (Fortran's 'c', 'dnl', 'REM') is never mirrored at the end of a line.
         suffix = prefix[::-1]
-        if suffix and value.endswith(suffix):
+        if (
+            suffix
+            and not any(char.isalnum() for char in suffix)
+            and value.endswith(suffix)
+        ):
             value = value[: -len(suffix)]
 
         yield value.strip()
